@@ -104,7 +104,7 @@ pub fn run_e1<O: Observer>(property: &str, plans: Vec<Plan>, ctx: &WorkerCtx, ru
         p.opts.threads = ctx.threads();
         if p.opts.wall_budget_s == 0 {
             // safety net: a plan that runs out of its budget is reported as not exhaustive, never as a verdict
-            p.opts.wall_budget_s = if ctx.quick() { 150 } else { 1200 };
+            p.opts.wall_budget_s = if ctx.quick() { 150 } else { 420 };
         }
         let t0 = std::time::Instant::now();
         let base = pi as u64 * 10_000_000;
